@@ -222,6 +222,7 @@ class RefEdge(object):
             self.tls = True
             self.helo = False
             self.starttls = False
+            self._reset()             # C08: no open transaction survives the handshake
             return
         if cmd == b'AUTH':
             if not self.auth or not self.helo or self.authed or self.mail or not arg:
@@ -236,10 +237,8 @@ class RefEdge(object):
             except Exception:
                 return self._say(ex, 'err', actual)
             if not self.tls:
-                # PLAIN on an unencrypted session: gating is C08's business; follow the implementation
-                ex.undefined = True
-                if not (actual and actual[0] == '235'):
-                    return self._say(ex, 'err', actual)
+                # PLAIN on an unencrypted session must be refused (C08)
+                return self._say(ex, 'err', actual)
             v = self._cb(ex, verdict, 'AUTH', c.decode('utf-8'), s.decode('utf-8'), z.decode('utf-8') or None)
             if v:
                 return self._say(ex, v, actual)
